@@ -537,6 +537,57 @@ func areaCrash(r *Rng, n int, dir string) (*AreaOut, error) {
 			start(nin)
 			settle(40 * time.Millisecond)
 		}
+		if !forced && r.Chance(40) {
+			// an instance is restored from nothing while a peer is down: A publishes data the stopped peer B has never
+			// seen, A's LMDB is lost, its application writes again before Lightning Stream starts (a NON-empty LMDB that
+			// is behind its own newest snapshot), the download of that snapshot is slow; then B comes back
+			a := insts[r.Intn(ni)]
+			b := insts[(a.idx+1)%ni]
+			stop(b)
+			before := a.lastWrite
+			for t := 0; t < 5 && !a.lastWrite.After(before); t++ {
+				write(a)
+			}
+			for dl := time.Now().Add(2 * time.Second); time.Now().Before(dl) && a.running; {
+				bk.mu.Lock()
+				up := bk.lastUp[a.idx]
+				bk.mu.Unlock()
+				if up.After(a.lastWrite) {
+					break
+				}
+				time.Sleep(5 * time.Millisecond)
+			}
+			stop(a)
+			a.closeEnv()
+			env, closeEnv, err := newEnv()
+			if err != nil {
+				return fail(err)
+			}
+			na, err := newInst(a.idx, env, closeEnv)
+			if err != nil {
+				closeEnv()
+				return fail(err)
+			}
+			insts[a.idx] = na
+			for t := 0; t < 5 && na.lastWrite.IsZero(); t++ {
+				write(na)
+			}
+			bk.mu.Lock()
+			bk.failLoad[dbName+"__"+na.name+"__"] = 10 + r.Intn(20)
+			bk.mu.Unlock()
+			start(na)
+			restarts++
+			settle(time.Duration(20+r.Intn(40)) * time.Millisecond)
+			nb, err := newInst(b.idx, b.env, b.closeEnv)
+			if err != nil {
+				return fail(err)
+			}
+			nb.lastWrite = b.lastWrite
+			insts[b.idx] = nb
+			start(nb)
+			restarts++
+			settle(60 * time.Millisecond)
+		}
 		// C09: with storage healthy again and nothing else happening, every running instance publishes what its
 		// application committed (bounded wait; an instance whose Sync returned, e.g. after exhausting the Store
 		// retry budget, is a dead process and publishes at its next start)
@@ -571,6 +622,112 @@ func areaCrash(r *Rng, n int, dir string) (*AreaOut, error) {
 				break
 			}
 			time.Sleep(10 * time.Millisecond)
+		}
+		// C01 on the real loops: once nothing is left to publish and the fleet has gone quiet, every live instance
+		// that has merged the newest snapshot of every other instance holds the same logical content
+		if len(unpublished) == 0 && !forced {
+			quiet := false
+			bk.mu.Lock()
+			lastN, lastChange := bk.next, time.Now()
+			bk.mu.Unlock()
+			for dl := time.Now().Add(3 * time.Second); time.Now().Before(dl); {
+				time.Sleep(15 * time.Millisecond)
+				bk.mu.Lock()
+				nn := bk.next
+				bk.mu.Unlock()
+				if nn != lastN {
+					lastN, lastChange = nn, time.Now()
+				} else if time.Since(lastChange) > 200*time.Millisecond {
+					quiet = true
+					break
+				}
+			}
+			var live []*crashInst
+			for _, in := range insts {
+				if in == nil || !in.running {
+					continue
+				}
+				dead := false
+				select {
+				case err := <-in.done:
+					in.done <- err
+					dead = true
+				default:
+				}
+				stop(in) // the loop goroutine is gone afterwards: its bookkeeping can be read
+				if !dead {
+					live = append(live, in)
+				}
+			}
+			newestTS := map[string]time.Time{}
+			if ls, err := bk.Interface.List(context.Background(), ""); err == nil {
+				for _, nm := range ls.Names() {
+					if pn, err := snapshot.ParseName(nm); err == nil && pn.Timestamp.After(newestTS[pn.InstanceID]) {
+						newestTS[pn.InstanceID] = pn.Timestamp
+					}
+				}
+			}
+			allMerged := quiet && len(live) >= 2
+			for _, in := range live {
+				lb := in.sy.VerifLastByInstance()
+				for name, ts := range newestTS {
+					if name != in.name && !lb[name].Equal(ts) {
+						allMerged = false
+					}
+				}
+			}
+			hist(out.Hist, fmt.Sprintf("convergence-evaluated=%v", allMerged))
+			if allMerged {
+				content := func(in *crashInst) map[string]string {
+					m := map[string]string{}
+					dump, _, _ := dumpEnv(in.env)
+					for _, d := range dump {
+						isShadow := strings.HasPrefix(d.Name, shadowPrefix)
+						if strings.HasPrefix(d.Name, "_sync") && !isShadow {
+							continue
+						}
+						if native || isShadow {
+							for _, p := range d.Data {
+								if lv, ok := logical(p.V); ok {
+									m[d.Name+"\x00"+string(p.K)] = fmt.Sprintf("%+v", lv)
+								} else {
+									m[d.Name+"\x00"+string(p.K)] = fmt.Sprintf("unparsable %x", p.V)
+								}
+							}
+						} else if d.Flags&lmdb.DupSort == 0 {
+							for _, p := range d.Data {
+								if len(p.V) > 0 { // empty application values in shadow mode: known finding F6, reported under C11
+									m["app:"+d.Name+"\x00"+string(p.K)] = fmt.Sprintf("%x", p.V)
+								}
+							}
+						}
+					}
+					return m
+				}
+				c0 := content(live[0])
+			cmp:
+				for _, in := range live[1:] {
+					ci := content(in)
+					keys := map[string]bool{}
+					for k := range c0 {
+						keys[k] = true
+					}
+					for k := range ci {
+						keys[k] = true
+					}
+					ks := make([]string, 0, len(keys))
+					for k := range keys {
+						ks = append(ks, k)
+					}
+					sort.Strings(ks)
+					for _, k := range ks {
+						if c0[k] != ci[k] {
+							out.Oracle = append(out.Oracle, OracleFailure{"C01", "replicas-differ-after-quiescence", fmt.Sprintf("real sync loops, applications stopped, nothing left to publish, every live instance has merged the newest snapshot of every other instance: key %x is %q on instance %s and %q on instance %s (empty = absent)", k, c0[k], live[0].name, ci[k], in.name), map[string]any{"native": native, "events": lst(events)}})
+							break cmp
+						}
+					}
+				}
+			}
 		}
 		cleanup()
 		for _, u := range unpublished {
